@@ -755,8 +755,28 @@ def c15_configs(tier):
     return cs
 
 
+def c15_extra(tier, rnd):
+    """the application's publish service takes its time to shut down (Service::shutdown completes on command) and a
+    publish handler that was in flight finishes meanwhile: after the endpoint's own DISCONNECT nothing may be written"""
+    runs = []
+    pub = lambda **kw: {"c": "in", "p": dict({"t": "publish", "topic": "t", "plen": 1}, **kw)}
+    causes = {
+        "violation": [pub(q=0, topic="a/#")],
+        "handler_error": [{"c": "arm", "o": "err"}, pub(q=1, id=7)],
+        "undecodable": [{"c": "in", "p": {"t": "raw", "hex": "00 00"}}],
+    }
+    for name, cause in causes.items():
+        for late in (1, 2):
+            cfg = dict(role="server", ver=5, gate_pub=1, gate_proto=0, max_qos=2, max_receive=16, slow_shutdown=1)
+            cmds = [handshake("server", 5), pub(q=1, id=1), pub(q=2, id=2)] + cause
+            cmds += [{"c": "complete", "h": 2, "o": "ok"}] + ([{"c": "complete", "h": 3, "o": "ok"}] if late == 2 else [])
+            cmds += [{"c": "complete", "j": 99, "o": "ok"}, {"c": "drain"}]
+            runs.append(dict(cfg=cfg, cmds=cmds, src="slow_shutdown_" + name))
+    return runs
+
+
 reg(dict(
-    name="disc", judge="ProtoJudge", configs=c15_configs, signature=inb_signature,
+    name="disc", judge="ProtoJudge", configs=c15_configs, signature=inb_signature, extra_runs=c15_extra,
     level={}, quota=500, quota_thorough=20000,
     rule="TLC enumerates every sequence of <= 3 close initiators out of 20 (server) / 15 (client) (incl. a failing and a slow handler for the peer's DISCONNECT with a close() meanwhile): application close / "
          "close_with_reason / close_with_no_reason, protocol handler disconnect / disconnect_with, control service "
